@@ -247,6 +247,18 @@ func c19(c *Ctx) {
 					}
 				}
 			}
+			// file names also travel in 0x1211 (file information) and 0x1212 (upload complete): announce hostile and
+			// plain names there too (names known from the 0x1210 and names the connection never announced)
+			if rng.Intn(3) == 0 {
+				extra := [][]byte{[]byte("../x1211"), []byte("/abs1212"), []byte("..")}
+				for k, n := range append(append([][]byte{}, names...), extra...) {
+					if len(n) > 255 || k > 5 {
+						continue
+					}
+					segs = append(segs, Frame808(0x1211, v2019, bcd, uint16(20+2*k), Body1211(n, 0, 3)))
+					segs = append(segs, Frame808(0x1212, v2019, bcd, uint16(21+2*k), Body1211(n, 0, 3)))
+				}
+			}
 			req = "c19" + AttRequest(d, segs)[3:]
 			o = session(d, func(string) [][]byte { return segs })
 		}
